@@ -125,8 +125,9 @@ type loopInfo struct {
 }
 
 type resolvedMod struct {
-	key string
-	obj string // "" = whole key
+	key   string
+	obj   string // "" = whole key
+	fresh bool   // only objects allocated by this call (id >= $A0)
 }
 
 type VC struct {
@@ -742,11 +743,35 @@ func (vc *VC) checkLoopStore(key, obj string) {
 		}
 		ok := false
 		for _, m := range l.mods {
-			if m.key == key && (m.obj == "" || m.obj == obj) {
-				ok = true
+			hit := m.key == key && (m.obj == "" || m.obj == obj)
+			if !hit && m.key == key && m.obj != "" && obj != "*" && !ok {
+				// the clause names an object by an expression evaluated before the loop; the store
+				// reaches its object through a different term: they must denote the same object
+				only := true
+				for _, m2 := range l.mods {
+					if m2.key == key && m2 != m {
+						only = false
+					}
+				}
+				if only {
+					vc.oblige("loop-at", vc.R[vc.cur], eq(obj, m.obj), token.NoPos, fmt.Sprintf("loop %d modifies %s at ...: the written object is the one named by the clause", l.ord, m.key))
+					hit = true
+				}
 			}
 			if p, wild := isWildKey(m.key); wild && strings.HasPrefix(key, p) {
-				ok = true
+				hit = true
+			}
+			if !hit {
+				continue
+			}
+			ok = true
+			if m.fresh {
+				// the clause covers only objects allocated by this call: this store must hit one
+				if obj == "*" {
+					unsup("a call inside loop %d may modify memory %q of any object, but the loop clause is 'modifies-fresh'", l.ord, key)
+				}
+				o := vc.oblige("loop-fresh", vc.R[vc.cur], le("$A0", obj), token.NoPos, fmt.Sprintf("loop %d modifies-fresh %s: the written object was allocated by this call", l.ord, m.key))
+				_ = o
 			}
 		}
 		if !ok {
